@@ -201,6 +201,7 @@ TYPE_SEQS = [
     (['vector', '<', 'NDSize', '>'], 'vec_NDSize'),
     (['vector', '<', 'DataView', '>'], 'vec_DataView'),
     (['vector', '<', 'DataArray', '>'], 'vec_DataArray'),
+    (['vector', '<', 'Variant', '>'], 'vec_Variant'),
     (['NDSizeBase', '<', 'T', '>'], 'NDSize'),
     (['NDSizeBase'], 'NDSize'),
     (['NDSize', '::', 'value_type'], 'ndsize_t'),
@@ -209,7 +210,7 @@ TYPE_SEQS = [
 
 OPT_TYPES = {'opt_ndsize': 'ndsize', 'opt_pair': 'pair', 'opt_double': 'double', 'opt_string': 'string'}
 VEC_TYPES = {'vec_double', 'vec_ndsize', 'vec_string', 'vec_opt_pair', 'vec_pair', 'vec_dpair',
-             'vec_Dimension', 'vec_NDSize', 'vec_int', 'vec_DataView', 'vec_nstr', 'vec_DataArray'}
+             'vec_Dimension', 'vec_NDSize', 'vec_int', 'vec_DataView', 'vec_nstr', 'vec_DataArray', 'vec_Variant'}
 STRUCT_TYPES = set(OPT_TYPES) | VEC_TYPES | {'pair_ndsize', 'pair_double', 'NDSize', 'nstring'}
 
 QUALIFIERS = {'std', 'boost', 'nix', 'util', 'base', 'check', 'hdf5', 'h5x'}
@@ -642,12 +643,17 @@ def r_rangefor(ctx, toks):
                 elt = VEC_ELEM[ty]
                 idx = '_i_' + var
                 ctx.env[var] = (elt, False)
+                by_ref = any(x.t == '&' for x in hdr[:c]) and elt in ctx.unit.get('classes', ())
+                if by_ref: ctx.env[var] = (elt, True)
                 out.extend(tokenize('%sfor (size_t %s = 0; %s < %s%sn; ++%s)' % (t.ws, idx, idx, vec, acc, idx)))
                 # body must be a block: insert element binding after '{'
                 if toks[e + 1].t != '{':
                     raise ExtractError('range-for without block')
                 out.append(toks[e + 1])
-                out.extend(tokenize(' %s %s = %s%sdata[%s];' % (elt, var, vec, acc, idx)))
+                if by_ref:      # 'T &x : v' with T a class: x is the element itself, not a copy
+                    out.extend(tokenize(' const %s *%s = &%s%sdata[%s];' % (elt, var, vec, acc, idx))); fire(ctx, 'range-for-by-ref')
+                else:
+                    out.extend(tokenize(' %s %s = %s%sdata[%s];' % (elt, var, vec, acc, idx)))
                 fire(ctx, 'range-for')
                 i = e + 2; continue
         out.append(t); i += 1
